@@ -256,6 +256,11 @@ def register(hub, props=("C13", "C15"), pool=None):
             if isinstance(t_.values, np.ndarray) and a_.size and np.shares_memory(t_.values, a_):
                 rec.violation(M15I, "__setitem__:target-shares-memory-with-the-assigned-ndarray", {"op": op, "key": repr(call.args[1])[:80], "target_dims": list(t_.dims.letters), "source_dtype": str(a_.dtype), "target_dtype": str(t_.values.dtype)}, prop="C15")
             return
+        if isinstance(res, fd.FlodymArray) and call.exc is None:
+            # whatever made it: a new array's dimension set is its own object, never one of the sets it was given
+            for i, a in list(enumerate(call.args)) + [(k, v) for k, v in call.kwargs.items()]:
+                if isinstance(a, fd.DimensionSet) and res.dims is a:
+                    rec.violation(M15I, f"{short}:result-holds-the-very-dimension-set-it-was-given", {"op": op, "arg": str(i), "letters": list(a.letters)}, prop="C15")
         if short not in INDEPENDENT_RESULT or not isinstance(res, fd.FlodymArray):
             return
         sources = [(i, a) for i, a in enumerate(call.args) if isinstance(a, fd.FlodymArray)]
